@@ -315,6 +315,10 @@ def harness_cases(tier, sd):
         add("gc", name, [B(top), B(top, gc=True), es, B(top, gc=True), B(top)], twin="gc")
         add("gc", name, [B(top), B(top, gc=True, index=True), es, B(top), B(top)], twin="gc")
         add("fail", name, [B(top), es, B(top, fail=[inner[0]]), B(top), B(top)])
+        if s0 and not shape.get("dirs"):
+            # a source file is away while a collection runs and comes back unchanged
+            add("gc", name, [B(top), {"op": "delete", "s": s0}, dict(B(top, gc=True), clean=False), {"op": "restore", "s": s0}, B(top), B(top)], twin="gc")
+            add("gc", name, [B(top), {"op": "delete", "s": s0}, dict(B(top, gc=True, index=True), clean=False), {"op": "restore", "s": s0}, B(top)], twin="gc")
         add("fail", name, [B(top, fail=[inner[0]]), B(inner[0]), B(top)])
         # a failure, then the failed target alone succeeds, then everything: its dependents must notice
         add("fail", name, [B(top), es, B(top, fail=[inner[0]]), B(inner[0]), B(top), B(top)])
